@@ -240,14 +240,21 @@ def check_rebin(ctx):
 
 
 class SubsetHooks(Hooks):
-    def __init__(self, cfg):
-        self.cfg = cfg          # dict test text -> bool
+    def __init__(self, ranks):
+        self.ranks = ranks      # ranks of (first abscissa, last abscissa, first limit, second limit) in the configuration analysed
         self.hstack, self.i1d = [], []
         self.final = None
+        self.facts = None
 
     def decide(self, interp, test, env, mod):
-        t = up(test).replace(' ', '')
-        return self.cfg.get(t)
+        # the configuration is an ordering of the four points the function compares; the test is evaluated
+        # symbolically and decided under that ordering, however the code spells or names it
+        if self.facts is None:
+            e = {'_x': symarr('x', (N,), unit=num(1))}
+            x0 = interp.expr(ast.parse('_x[0]', mode='eval').body, e, mod)
+            x1 = interp.expr(ast.parse('_x[-1]', mode='eval').body, e, mod)
+            self.facts = alg.OrderFacts([x0.poly, x1.poly, sym('xmin'), sym('xmax')], self.ranks)
+        return decide_with(interp, test, env, mod, facts=self.facts)
 
     def external(self, interp, name, args, kwargs, node, mod):
         if name.endswith('.hstack') and len(args) == 1:
@@ -290,8 +297,7 @@ def check_integrate_subset(ctx):
     ss = lambda v: mk_fn('searchsorted', B(N, x), P(v))
     for first in (True, False):
         for last in (True, False):
-            cfg = {'x[-1]<x[0]': False, 'xmin>xmax': False, 'xmin==xmax': False, 'xmin==x[0]': first, 'xmax==x[-1]': last}
-            h = SubsetHooks(cfg)
+            h = SubsetHooks((0, 3 if not last else 2, 0 if first else 1, 2))
             I = Interp(repo, h)
             I.call(fi, [symarr('x', (N,), unit=num(1)), symarr('y', (N,), unit=num(1)), scalar(xmin, num(1)), scalar(xmax, num(1))])
             tag = 'xmin %s first sample, xmax %s last sample' % ('is' if first else 'after', 'is' if last else 'before')
@@ -342,7 +348,7 @@ def check_integrate_subset(ctx):
                                 okk = True
                     ctx.expect(okk, 'CFG-11b', inst, where_, 'linear interpolant on the bracketing pair x[i-1:i+1], y[i-1:i+1] at the limit', 'end value is %s' % (alg.show(v.poly, 160) if isinstance(v, Arr) else v), 'end-value')
     # reversal of a decreasing grid
-    h = SubsetHooks({'x[-1]<x[0]': True, 'xmin>xmax': False, 'xmin==xmax': False, 'xmin==x[0]': False, 'xmax==x[-1]': False})
+    h = SubsetHooks((3, 0, 1, 2))
     I = Interp(repo, h)
     I.call(fi, [symarr('x', (N,), unit=num(1)), symarr('y', (N,), unit=num(1)), scalar(xmin, num(1)), scalar(xmax, num(1))])
     okk = False
@@ -352,7 +358,7 @@ def check_integrate_subset(ctx):
         okk = bool(sx and sy and sx[0] == rx and sy[0] == ry)
     ctx.expect(okk, 'CFG-11b', 'decreasing grid reversed together with its values', loc(fi), 'x and y are both reversed before integrating', 'a decreasing grid is not order-normalised consistently', 'grid-reversal')
     # swapped limits
-    h = SubsetHooks({'x[-1]<x[0]': False, 'xmin>xmax': True, 'xmin==xmax': False, 'xmin==x[0]': False, 'xmax==x[-1]': False})
+    h = SubsetHooks((0, 3, 2, 1))
     I = Interp(repo, h)
     I.call(fi, [symarr('x', (N,), unit=num(1)), symarr('y', (N,), unit=num(1)), scalar(xmin, num(1)), scalar(xmax, num(1))])
     okk = len(h.hstack) == 2 and isinstance(h.hstack[0], list) and isinstance(h.hstack[0][0], Arr) and h.hstack[0][0].poly == xmax and h.hstack[0][2].poly == xmin
